@@ -12,6 +12,7 @@ import (
 	"go.opentelemetry.io/otel/exporters/otlp/otlplog/otlploghttp"
 	"go.opentelemetry.io/otel/exporters/otlp/otlpmetric/otlpmetricgrpc"
 	"go.opentelemetry.io/otel/exporters/otlp/otlpmetric/otlpmetrichttp"
+	"go.opentelemetry.io/otel/exporters/otlp/otlptrace"
 	"go.opentelemetry.io/otel/exporters/otlp/otlptrace/otlptracegrpc"
 	"go.opentelemetry.io/otel/exporters/otlp/otlptrace/otlptracehttp"
 	"go.opentelemetry.io/otel/log"
@@ -47,6 +48,20 @@ var grpcExporters = []string{"otlptracegrpc", "otlpmetricgrpc", "otlploggrpc"}
 type handle struct {
 	export   func(context.Context) error
 	shutdown func(context.Context) error
+	start    func(context.Context) error // trace exporters only (otlptrace.Exporter.Start)
+}
+
+// traceLife constructs a trace exporter along the requested life cycle:
+// "shutdown_before_start": NewUnstarted -> Shutdown -> Start; otherwise New.
+func traceLife(life string, unstarted func() *otlptrace.Exporter, started func() (*otlptrace.Exporter, error)) (*otlptrace.Exporter, error) {
+	if life != "shutdown_before_start" {
+		return started()
+	}
+	e := unstarted()
+	sctx, sc := context.WithTimeout(context.Background(), time.Second)
+	_ = e.Shutdown(sctx) // documented as a no-op on an exporter that was not started
+	sc()
+	return e, e.Start(context.Background())
 }
 
 type retryCfg struct {
@@ -124,6 +139,7 @@ type handleOpts struct {
 	timeout time.Duration // 0 = option not passed
 	gz      bool
 	items   int
+	life    string            // life cycle before the export (see Case.Life)
 	mark    string            // payload marker (item names start with it)
 	headers map[string]string // WithHeaders, nil = option not passed
 	// proxy (HTTP exporters only): WithProxy, nil = option not passed
@@ -149,12 +165,13 @@ func newHandle(name, addr string, o handleOpts) (handle, error) {
 		if o.proxy != nil {
 			opts = append(opts, otlptracehttp.WithProxy(o.proxy))
 		}
-		e, err := otlptracehttp.New(ctx, opts...)
+		e, err := traceLife(o.life, func() *otlptrace.Exporter { return otlptracehttp.NewUnstarted(opts...) },
+			func() (*otlptrace.Exporter, error) { return otlptracehttp.New(ctx, opts...) })
 		if err != nil {
 			return handle{}, err
 		}
 		ss := spans(items, o.mark)
-		return handle{export: func(ctx context.Context) error { return e.ExportSpans(ctx, ss) }, shutdown: e.Shutdown}, nil
+		return handle{export: func(ctx context.Context) error { return e.ExportSpans(ctx, ss) }, shutdown: e.Shutdown, start: e.Start}, nil
 	case "otlptracegrpc":
 		opts := []otlptracegrpc.Option{otlptracegrpc.WithEndpoint(addr), otlptracegrpc.WithInsecure(),
 			otlptracegrpc.WithRetry(otlptracegrpc.RetryConfig{Enabled: rc.Enabled, InitialInterval: rc.Initial, MaxInterval: rc.MaxInterval, MaxElapsedTime: rc.MaxElapsed})}
@@ -167,12 +184,13 @@ func newHandle(name, addr string, o handleOpts) (handle, error) {
 		if o.headers != nil {
 			opts = append(opts, otlptracegrpc.WithHeaders(o.headers))
 		}
-		e, err := otlptracegrpc.New(ctx, opts...)
+		e, err := traceLife(o.life, func() *otlptrace.Exporter { return otlptracegrpc.NewUnstarted(opts...) },
+			func() (*otlptrace.Exporter, error) { return otlptracegrpc.New(ctx, opts...) })
 		if err != nil {
 			return handle{}, err
 		}
 		ss := spans(items, o.mark)
-		return handle{export: func(ctx context.Context) error { return e.ExportSpans(ctx, ss) }, shutdown: e.Shutdown}, nil
+		return handle{export: func(ctx context.Context) error { return e.ExportSpans(ctx, ss) }, shutdown: e.Shutdown, start: e.Start}, nil
 	case "otlpmetrichttp":
 		opts := []otlpmetrichttp.Option{otlpmetrichttp.WithEndpoint(addr), otlpmetrichttp.WithInsecure(),
 			otlpmetrichttp.WithRetry(otlpmetrichttp.RetryConfig{Enabled: rc.Enabled, InitialInterval: rc.Initial, MaxInterval: rc.MaxInterval, MaxElapsedTime: rc.MaxElapsed})}
